@@ -41,7 +41,8 @@ import common
 from common import frac, rat_str
 
 RULE = ("stream `system`: generated topologies (1-3 molecule types x 1-4 residues drawn from 2-4 residue kinds: "
-        "single atom / chain / ring / branched / planar star with improper; 0-3 virtual sites of types 2, 3, 3fd, "
+        "single atom (also with a stacked sigma-0 dummy site) / chain / ring / branched / planar star with improper / "
+        "constraint four-ring folded by an improper / constraint pyramid with improper; 0-3 virtual sites of types 2, 3, 3fd, "
         "3fad, 3out, 4fdn, n(COG); kinds sharing a residue name with different content; renamed twins; "
         "infeasible geometries), optional build file with [ template ] and [ volumes ] blocks in either order, "
         "skip_filter on/off, real GenerateTemplates(max_opt=10).run_system; streams `vs`, `cog`, `verdict` "
@@ -51,6 +52,7 @@ RULE = ("stream `system`: generated topologies (1-3 molecule types x 1-4 residue
 TOL9 = "1/1000000000"
 TOL6 = "1/1000000"
 ATYPES = [("P", 0.47, 72.0), ("Q", 0.41, 36.0), ("S", 0.34, 12.0)]
+DUMMY = ("D", 0.0, 0.0)        # a dummy / virtual-site atom type: sigma 0, mass 0 (never the only atom of a residue)
 BOND_LENGTHS = [0.2, 0.25, 0.3, 0.35, 0.47]
 FINDING_SHAPES = ("vsn-com-as-cog", "template-without-bonds-ignored")
 # fixed in /repo (see known_findings.txt `fixed:`), therefore always generated:
@@ -99,7 +101,8 @@ def gen_kind(rng, resname, prefix, vs_ok=True):
     """one residue definition: atoms, bonded terms, virtual sites (all indices local, 0-based)"""
     # "infeasible": a residue that cannot be optimised (gen_templates must proceed with unoptimised coordinates;
     # it raised UnboundLocalError before fix be7ff96)
-    shape = rng.choice(["single", "chain", "chain", "ring", "branched", "star", "infeasible"])
+    shape = rng.choice(["single", "single", "chain", "chain", "chain", "ring", "ring", "branched", "branched", "star",
+                        "star", "pucker", "pucker", "cstar", "infeasible"])
     atoms, bonds, constraints, angles, impropers = [], [], [], [], []
 
     def add_atom(name):
@@ -140,12 +143,34 @@ def gen_kind(rng, resname, prefix, vs_ok=True):
         angles.append([1, 0, 2, 120.0])
         angles.append([2, 0, 3, 120.0])
         impropers.append([0, 1, 2, 3, rng.choice([0.0, 25.0, -25.0])])
+    elif shape == "pucker":
+        # a four-ring held by CONSTRAINTS and folded by an improper dihedral (feasible for every fold angle)
+        length = rng.choice([0.25, 0.3, 0.35])
+        for i in range(4):
+            add_atom("%s%d" % (prefix, i + 1))
+        for i in range(4):
+            constraints.append([i, (i + 1) % 4, length])
+        impropers.append([0, 1, 2, 3, rng.choice([20.0, 30.0, -30.0, 40.0, -20.0])])
+    elif shape == "cstar":
+        # a pyramidal centre: arms constrained, apex angle set by an improper
+        for i in range(4):
+            add_atom("%s%d" % (prefix, i + 1))
+        for i in range(1, 4):
+            constraints.append([0, i, rng.choice([0.25, 0.3])])
+        for i, j in ((1, 2), (2, 3)):
+            (constraints if rng.random() < 0.5 else bonds).append([i, j, 0.4])
+        impropers.append([0, 1, 2, 3, rng.choice([25.0, -25.0, 35.0, -35.0])])
     else:  # a triangle violating the triangle inequality: cannot be optimised within tolerance
         for i in range(3):
             add_atom("%s%d" % (prefix, i + 1))
         bonds += [[0, 1, 0.2], [1, 2, 0.2], [0, 2, 0.6]]
     nreal = len(atoms)
     vsites = []
+    if vs_ok and shape == "single" and rng.random() < 0.5:
+        # a sigma-0 dummy site stacked on the bead (listed after it): every particle sits on the centre of geometry
+        site = add_atom("V%s1" % prefix)
+        atoms[site].update(atype=DUMMY[0], mass=0.0)
+        vsites.append(dict(section="virtual_sitesn", func="1", params=[], site=site, atoms=[0]))
     if vs_ok and nreal >= 2 and shape != "infeasible" and rng.random() < 0.55:
         for v in range(rng.randint(1, 3)):
             choices = ["2", "n1"]
@@ -158,6 +183,8 @@ def gen_kind(rng, resname, prefix, vs_ok=True):
             kind = rng.choice(choices)
             site = add_atom("V%s%d" % (prefix, v + 1))
             atoms[site]["mass"] = 0.0
+            if rng.random() < 0.4:
+                atoms[site]["atype"] = DUMMY[0]
             # constructing atoms: a connected run where possible (keeps 3fad / 4fdn away from degenerate input)
             need = {"2": 2, "3": 3, "3fd": 3, "3fad": 3, "3out": 3, "4fdn": 4}.get(kind) or rng.randint(2, nreal)
             start = rng.randint(0, nreal - need)
@@ -304,6 +331,7 @@ def top_text(spec):
     lines = ["[ defaults ]", "1 2 no 1.0 1.0", "[ atomtypes ]"]
     for name, sigma, mass in ATYPES:
         lines.append("%s %s 0.0 A %s 2.0" % (name, mass, sigma))
+    lines.append("%s %s 0.0 A %s 0.0" % (DUMMY[0], DUMMY[2], DUMMY[1]))
     layout = []
     for mol in spec["moltypes"]:
         lines += ["[ moleculetype ]", "%s 1" % mol["name"], "[ atoms ]"]
@@ -653,7 +681,7 @@ def system_case(ctx, replay):
     reqs += [r[3] for r in tmpl_reqs]
     # a size that is not the user's is the size computed from the residue's OWN template
     user_vol_names = {b[1] for b in (spec["build"] or []) if b[0] == "volume"}
-    sigma = {name: sig for name, sig, _ in ATYPES}
+    sigma = {name: sig for name, sig, _ in ATYPES + [DUMMY]}
     size_reqs = []
     for ghash, k in per_template:
         names_of_hash = {q["resname"] for q in flat if q["hash"] == ghash}
@@ -683,8 +711,11 @@ def system_case(ctx, replay):
             if items is None:
                 ctx.tally(non_finite_geometry=True)
                 continue
-            verdict_reqs.append((ghash, success, dict(op="verdict", items=items)))
-    reqs += [r[2] for r in verdict_reqs]
+            # the property speaks about EVERY bond, constraint, angle and improper of a template reported as
+            # optimised, whatever list of interaction types the last optimisation stage was handed
+            every = measure_items(rec["block"], coords, ["bonds", "constraints", "angles", "dihedrals"])
+            verdict_reqs.append((ghash, success, dict(op="verdict", items=items), dict(op="verdict", items=every or items)))
+    reqs += [r for v in verdict_reqs for r in (v[2], v[3])]
     user_reqs = []
     for block in spec["build"] or []:
         if block[0] == "template" and block[3]:
@@ -779,13 +810,19 @@ def system_case(ctx, replay):
                                 "the size computed from its own template is %r" % (kinds[k]["resname"], ghash[:8], got, want),
                                 replay)
             ctx.tally(own_size_checked=True)
-        for ghash, success, req in verdict_reqs:
-            ans = answers[idx]
-            idx += 1
+        for ghash, success, req, req_all in verdict_reqs:
+            ans, ans_all = answers[idx], answers[idx + 1]
+            idx += 2
             ctx.correspond("optimize_geometry-verdict", dict(success=success), dict(success=ans["success"]), replay)
-            if success and not ans["within"]:
-                ctx.oracle_fail("optimised-but-off-target", "template %s reported as optimised but an interaction misses its "
-                                "target by more than the tolerance: %s" % (ghash[:8], req["items"]), replay)
+            if success and not (ans["within"] and ans_all["within"]):
+                off = [(it["kind"], round(float(common.rat_parse(it["value"])), 4), float(common.rat_parse(it["target"])))
+                       for it in req_all["items"]
+                       if not (it["kind"] == "dihedrals" and not it["improper"]) and
+                       abs(float(common.rat_parse(it["value"])) - float(common.rat_parse(it["target"])))
+                       > (0.05 if it["kind"] in ("bonds", "constraints") else 5)]
+                ctx.oracle_fail("optimised-but-off-target", "template %s reported as optimised but an interaction of the final "
+                                "coordinates misses its target by more than the tolerance (kind, value, target): %s"
+                                % (ghash[:8], off), replay)
             ctx.tally(optimised=success)
         for ghash, req in user_reqs:
             ans = answers[idx]
@@ -1010,13 +1047,20 @@ def volume_case(ctx, replay):
     rng = random.Random(replay["seed"])
     n = rng.choice([1, 1, 2, 3, 4, 5])
     mode = rng.choice(["spread", "spread", "stacked", "partly-central"])
+    if replay.get("force") == "stacked-dummy-last":
+        n, mode = rng.choice([2, 3, 4]), "stacked"
     block = vermouth.molecule.Block()
     coords, nb = {}, {}
-    for name, sigma, _ in ATYPES:
+    for name, sigma, _ in ATYPES + [DUMMY]:
         nb[frozenset([name, name])] = {"nb1": sigma, "nb2": 2.0}
+    dummy_at = None
+    if n >= 2 and rng.random() < 0.45:
+        dummy_at = n - 1 if rng.random() < 0.7 else rng.randrange(1, n)     # a sigma-0 dummy, mostly listed last
+    if replay.get("force") == "stacked-dummy-last":
+        dummy_at = n - 1
     base = np.array([dy(rng, -2, 2), dy(rng, -2, 2), dy(rng, -2, 2)])
     for i in range(n):
-        atype = rng.choice(ATYPES)[0]
+        atype = DUMMY[0] if i == dummy_at else rng.choice(ATYPES)[0]
         block.add_node("A%d" % i, atomname="A%d" % i, atype=atype)
         if mode == "stacked":
             coords["A%d" % i] = base.copy()
@@ -1060,9 +1104,12 @@ def volume_case(ctx, replay):
         else:
             ctx.correspond("compute_volume", dict(kind="value", size=size), dict(kind="error"), replay)
         if size is not None and not size > 0:
-            ctx.oracle_fail("size-not-positive", "compute_volume returned %r for %s" % (size, coords), replay)
+            ctx.oracle_fail("size-not-positive", "compute_volume returned %r for coordinates %s with self sigma %s"
+                            % (size, {k: v.tolist() for k, v in coords.items()},
+                               {k: nb[frozenset([block.nodes[k]["atype"]] * 2)]["nb1"] for k in coords}), replay)
         ctx.case(("volume", replay["seed"]) if n >= 2 else None, sample=dict(stream="volume", atoms=n, mode=mode),
-                 stream="volume", volume_mode=mode, volume_branch=answers[0]["size"]["kind"])
+                 stream="volume", volume_mode=mode, volume_branch=answers[0]["size"]["kind"],
+                 volume_dummy=("none" if dummy_at is None or dummy_at >= n else "last" if dummy_at == n - 1 else "inner"))
     return reqs, judge
 
 
@@ -1079,14 +1126,17 @@ def gen_replays(ctx):
             out.append(dict(stream="vs", entry=entry, seed=rng.randint(0, 10 ** 9)))
     for _ in range(ctx.budget(15, 150)):
         out.append(dict(stream="cog", seed=rng.randint(0, 10 ** 9)))
-    for _ in range(ctx.budget(40, 800)):
+    for _ in range(ctx.budget(30, 800)):
         out.append(dict(stream="verdict", seed=rng.randint(0, 10 ** 9), stub=rng.random() < 0.6))
+    for _ in range(ctx.budget(3, 20)):
+        # all particles on the centre of geometry, a sigma-0 dummy listed last (bead + stacked virtual site)
+        out.append(dict(stream="volume", seed=rng.randint(0, 10 ** 9), force="stacked-dummy-last"))
     for _ in range(ctx.budget(30, 600)):
         out.append(dict(stream="volume", seed=rng.randint(0, 10 ** 9)))
     for scenario in SCENARIOS:
         for _ in range(ctx.budget(2, 20)):
             out.append(dict(stream="system", seed=rng.randint(0, 10 ** 9), scenario=scenario))
-    for _ in range(ctx.budget(40, 900)):
+    for _ in range(ctx.budget(30, 900)):
         out.append(dict(stream="system", seed=rng.randint(0, 10 ** 9)))
     probe = sorted(s for s in FINDING_SHAPES if enabled(s))
     for rep in out:
@@ -1136,7 +1186,7 @@ def run(ctx):
         "proved relative to it and tested against networkx.is_isomorphic)",
         "partial: Kamada-Kawai layout and L-BFGS-B are ORACLES (theorems quantify over every coordinates they may return; "
         "the tolerance theorem speaks about the verdict, not about convergence)",
-        "self sigma of every atom type > 0 (sizes of sigma-0 particles are 0 by definition)",
+        "every residue holds at least one atom with self sigma > 0 (sigma-0 dummy / virtual-site atoms occur next to them)",
         "virtual sites are constructed from real atoms only (renew_vs handles sections in a fixed order)",
         "documented findings kept out of the default stream until listed in known_findings.txt: "
         + ", ".join(s for s in FINDING_SHAPES if not enabled(s)),
